@@ -1,12 +1,12 @@
 #!/bin/bash
-# usage: collect_mut2.sh C04  -> copies /tmp/mut2/C04-out into seeded/C04-b and removes the worktree
+# usage: collect_mut2.sh C04  -> copies ${MUTDIR:-/tmp/mut2}/C04-out into seeded/C04-b and removes the worktree
 id=$1
-d=/verif/seeded/$id-b
+d=/verif/seeded/$id-${SUF:-b}
 mkdir -p $d
-cp /tmp/mut2/$id-out/patch.diff $d/patch.diff
-[ -f /tmp/mut2/$id-out/demo.rs ] && cp /tmp/mut2/$id-out/demo.rs $d/demo.rs
-[ -f /tmp/mut2/$id-out/run.sh ] && cp /tmp/mut2/$id-out/run.sh $d/run.sh
-cp /tmp/mut2/$id-out/meta.json $d/agent_meta.json
-git -C /repo worktree remove --force /tmp/mut2/$id
-rm -rf /tmp/mut2/$id-out /tmp/mut2/$id
+cp ${MUTDIR:-/tmp/mut2}/$id-out/patch.diff $d/patch.diff
+[ -f ${MUTDIR:-/tmp/mut2}/$id-out/demo.rs ] && cp ${MUTDIR:-/tmp/mut2}/$id-out/demo.rs $d/demo.rs
+[ -f ${MUTDIR:-/tmp/mut2}/$id-out/run.sh ] && cp ${MUTDIR:-/tmp/mut2}/$id-out/run.sh $d/run.sh
+cp ${MUTDIR:-/tmp/mut2}/$id-out/meta.json $d/agent_meta.json
+git -C /repo worktree remove --force ${MUTDIR:-/tmp/mut2}/$id
+rm -rf ${MUTDIR:-/tmp/mut2}/$id-out ${MUTDIR:-/tmp/mut2}/$id
 git -C /repo apply --check $d/patch.diff && echo "$id-b applies"
